@@ -665,10 +665,52 @@ def run_dynamic_collisions(n, res):
     res.w('same_named_modules_replayed')
 
 
+# ----------------------------------------------------------------------------------------- dotted scope names
+# A call under a scope whose component contains a period (config_scope accepts it, and so does the parser in
+# `@a.b/c07.g()`) is recorded under that scope: the operative text must still replay.
+DOTTED = {
+    'config_scope_block': ("c07.g.t = 'T'\n", 'block'),
+    'evaluated_reference': ("c07.g.t = 'T'\nc07.consumer.p = @a.b/c07.g()\n", 'reference'),
+}
+
+
+def run_dotted_scope(name, res):
+  text, how = DOTTED[name]
+  art = {'special': 'dotted_scope', 'name': name}
+
+  def calls():
+    del REC[:]
+    if how == 'block':
+      with gin.config_scope('a.b'):
+        gin.get_configurable('c07.g')()
+    else:
+      gin.get_configurable('c07.consumer')()
+    return list(REC)
+  harness.hard_reset()
+  gin.parse_config(text)
+  res.case(('dotted_scope', name), True)
+  first = calls()
+  op_text = gin.operative_config_str()
+  harness.hard_reset()
+  try:
+    gin.parse_config(op_text)
+  except Exception as e:  # pylint: disable=broad-except
+    res.violation('dotted_scope_operative_unparseable', '%s: config %r, a call under the scope a.b: the operative text does '
+                  'not parse (%r):\n%s' % (name, text, e, op_text), art)
+    return
+  second = calls()
+  if second != first or gin.operative_config_str() != op_text:
+    res.violation('replay_differs', '%s: replay of the operative text gave %r, first run %r' % (name, second, first), art)
+  else:
+    res.w('dotted_scope_replayed')
+
+
 def run(ctx):
   res = core.Result()
   for name in FAILED_MACRO:
     run_failed_macro(name, res)
+  for name in DOTTED:
+    run_dotted_scope(name, res)
   for n in (2, 3, 4):
     run_dynamic_collisions(n, res)
   run_read_overlapping_call(res)
@@ -693,6 +735,11 @@ def run(ctx):
 
 
 def replay(obj):
+  if obj.get('special') == 'dotted_scope':
+    res = core.Result()
+    run_dotted_scope(obj['name'], res)
+    harness.hard_reset()
+    return res
   if obj.get('special') == 'read_overlapping_call':
     res = core.Result()
     run_read_overlapping_call(res)
